@@ -30,6 +30,13 @@ func getProfile(name string, seed int64) *Profile {
 		p.Rich = true
 		p.W = weights(map[string]int{"FindAll": 10, "FindById": 10, "Derived": 4})
 		p.Invalid = 0.02
+	case "richreopen":
+		p.Rich = true
+		p.CloseOps = false
+		p.Ops = 24
+		p.Name = "richreopen"
+		p.W = weights(map[string]int{"FindAll": 8, "FindById": 8, "Derived": 3})
+		p.Invalid = 0.02
 	case "ids": // C12
 		p.Colls = 3
 		p.MaxDocs = 6
@@ -46,6 +53,27 @@ func getProfile(name string, seed int64) *Profile {
 		p.W = weights(map[string]int{"CreateIndex": 14, "DropIndex": 10, "HasIndex": 6, "ListIndexes": 6, "FindAll": 14, "Derived": 4})
 		p.SortHeavy = true
 		p.IdxPool = []string{"x", "xy", "n", "n.a", "x", "xy", "s", "x.y"}
+	case "twins": // C02: collections differing only in their indexes
+		p.Twins = 4
+		p.Colls = 4
+		p.MaxDocs = 12
+		p.SortHeavy = true
+		p.Invalid = 0.02
+		p.ReadAudit = 0
+		p.Names = []string{"t0", "t1", "t2", "t3", "t4"}
+	case "bulk", "bulkbig": // C03: one multi-page collection, one bulk operation
+		p.Colls = 1
+		p.Names = []string{"bulk"}
+	case "io": // C19
+		p.Colls = 4
+		p.MaxDocs = 8
+	case "reopen": // C05 (clean close / reopen after every prefix), C20 (calls after Close)
+		p.CloseOps = true
+		p.Ops = 24
+		p.ReadAudit = 0
+	case "closed": // C20: calls on a closed handle
+		p.CloseOps = true
+		p.Ops = 10
 	case "extremes": // integer extremes, no indexes (C01 C08 C10 over the extremes table)
 		p.NumTable = "extremes"
 		p.Indexes = false
@@ -59,7 +87,22 @@ func getProfile(name string, seed int64) *Profile {
 	return p
 }
 
+var bulkSizes = []int{0, 1, 2, 3, 7, 40, 64, 100, 150, 200, 350, 500}
+var bulkSizesBig = []int{800, 1000, 1500, 2000, 3000}
+
 func generate(p *Profile, seed int64) ([]E, *Universe) {
 	g := NewGen(seed, p)
+	switch {
+	case p.Twins > 0:
+		return g.HistoryTwins(), g.U
+	case p.Name == "bulk":
+		return g.HistoryBulk(bulkSizes[int(seed%int64(len(bulkSizes)))]), g.U
+	case p.Name == "bulkbig":
+		return g.HistoryBulk(bulkSizesBig[int(seed%int64(len(bulkSizesBig)))]), g.U
+	case p.Name == "io":
+		return g.HistoryIO(), g.U
+	case p.CloseOps || p.Name == "richreopen":
+		return g.HistoryReopen(), g.U
+	}
 	return g.History(), g.U
 }
